@@ -67,6 +67,9 @@ def generate(rng, tier):
                     if st.get('want', '') and st['want'].startswith('tb') and st['form'] not in ('tq', 'tqprint', 'bgtask'):
                         st['inline'] = fl
                         st['inline_at'] = rng.choice(['first', 'last'])
+        for st in steps:
+            if (st.get('want') or '').startswith('tb') and rng.random() < 0.15:
+                st['want_indent'] = rng.choice([2, 4])      # a want written deeper than its prompt
         gen.fix_chunk_starts(steps)
     # wants that need a flag to match are left as they are: then they must fail
     ids = gen.doctest_ids(world)
@@ -127,7 +130,7 @@ def generate(rng, tier):
         elif r < 0.32:
             # not an Exception, and not one of the graceful exits: must come out of run()
             f['kind'] = 'interrupt'
-            f['exc'] = rng.choice(['Failed', 'Failed', 'SimBaseExc'])
+            f['exc'] = rng.choice(['Failed', 'Failed', 'SimBaseExc', 'KeyboardInterrupt', 'KeyboardInterrupt'])
         else:
             f['kind'] = 'raise'
             f['exc'] = rng.choice(['ValueError', 'ZeroDivisionError', 'RuntimeError', 'AssertionError', 'KeyError',
